@@ -30,7 +30,7 @@ def validate(ctx, tf):
 def run(ctx):
     vlib.build_harness()
     q = ctx.tier == "quick"
-    extra = ["-seed", str(ctx.seed + 1), "-triples", "8" if q else "14", "-watchdog", "2s" if q else "10s", "-templates", "20000" if q else "2000000"]
+    extra = ["-seed", str(ctx.seed + 1), "-triples", "8" if q else "14", "-watchdog", "2s" if q else "3s", "-templates", "20000" if q else "2000000"]
     if ctx.replay:
         rep = json.load(open(ctx.replay))
         rargs = extra + ["-only", rep["case"]["line"]["fn"]]
@@ -52,14 +52,21 @@ def run(ctx):
     known = {k["key"] for k in vlib.load_known().get("findings", []) if k["property"] == "C04"}
     for key, (name, line) in sorted(vlib.limit_new(by_key, "C04").items()):
         if key not in known:
-            # confirm on an otherwise idle run of just that function/operator with a longer watchdog
-            cargs = ["-seed", str(ctx.seed + 1), "-triples", "8" if q else "14", "-watchdog", "6s" if q else "20s", "-templates", "0", "-only", line["fn"]]
+            # confirm on an otherwise idle run of just that function/operator (one process instead of sixteen) under the SAME
+            # watchdog: a call that only timed out because the machine was busy returns in time there, a call whose time is
+            # not bounded by its result does not (a longer watchdog here used to let a 3-second loop over an empty text pass)
+            cargs = ["-seed", str(ctx.seed + 1), "-triples", "8" if q else "14", "-watchdog", "2s" if q else "3s", "-templates", "0", "-only", line["fn"]]
             if line["kind"] == "template":
                 tfile = os.path.join(ctx.work, "confirm_templates.ndjson")
                 open(tfile, "w").write(json.dumps(line["args"][0]) + "\n")
                 cargs += ["-tplfile", tfile]
             tf2, _, _ = produce(ctx, "confirm", cargs)
             if key not in {key_for(n, l) for n, l in validate(ctx, tf2)}:
+                if line["outcome"] == "timeout":
+                    # a watchdog verdict that an idle process does not repeat was the machine, not the code
+                    ctx.notes.append(f"timeout not repeated by an idle confirming run (machine load), not a verdict: {line['kind']} {line['fn']}({', '.join(line['args'])[:80]})")
+                    vlib.log(f"[confirm] {key}: timeout not repeated by the idle confirming run - dropped")
+                    continue
                 raise vlib.Infra(f"violation {key} did not reproduce on a confirming run")
         ctx.violation(key, f"{name}: {line['kind']} {line['fn']}({', '.join(line['args'])}) -> {line['outcome']}: {line['detail'][:200]}", dict(pred=name, line=line))
     all_lines = [json.loads(l) for l in open(tf)]
@@ -70,6 +77,6 @@ def run(ctx):
                excused_timeouts_big_result=sum(1 for l in all_lines if l["outcome"] == "timeout" and l["big_result"]),
                abandoned_goroutines=sum(s.get("leaked_goroutines", 0) for s in st), predicate_failures=len(viols))
     return ctx.finish("exploration", cov, assumptions=[
-        "time: a 2s (quick) / 10s (thorough) watchdog per call, two orders of magnitude above normal latency; a timeout is a verdict only when the a-priori result-size estimate is <= 100000 characters and after a confirming run",
+        "time: a 2s (quick) / 3s (thorough) watchdog per call, several orders of magnitude above normal latency; a timeout is a verdict only when the a-priori result-size estimate is <= 100000 characters and after a confirming run",
         "after one timeout a (callee, argument position, result-size class) is masked for further huge values",
         "TLC (TotalTrace.tla) accepts a recorded call iff it is Call -> Return(kind in Kinds); it is the contract, not a model of the functions"])
